@@ -1,240 +1,777 @@
-"""C13 — `#import` resolution brings in every requested fragment, transitively, once."""
+"""C13 — `#import` resolution brings in every requested fragment, transitively, once.
+
+All rules work on the *role* of the code, not on its spelling: the traversal is the function that takes the accumulated
+`&mut Vec<ExecutableDefinition>` and a `&mut` collection of `PathBuf` (whatever set type it is), helpers it calls are seen through
+`templates.inlined`, and every condition is read off a normal form of the guards around a site (`guards_of`): `if`, `if let`,
+`let … else`, `match` arms, an earlier diverging `if … { continue }`, a closure handed to `ok_or_else`.  A shape that is not
+recognised is UNDECIDED; VIOLATED is reserved for positive evidence (an atom that is absent from an over-approximated slice, an
+operation that shrinks the visited set, a table row with the wrong outcome).
+"""
 import harness
-from facts import norm, call_name, short, subnodes, matches_on, arm_variants, lit_value
+from facts import norm, call_name, short, subnodes, arm_variants, lit_value, peel_ty, pat_lits, AnchorMissing
 from prov import Prov, has_field, has_call
-from mirq import MirQ, func_path
-from templates import enclosing_contexts, LOSSY_OR_REORDERING
+from mirq import MirQ
+from templates import LOSSY_OR_REORDERING, inlined, pat_matches
 
 SEM = "nitrogql_semantics::"
-HS = "std::collections::hash::set::HashSet"
+EXDEF = "nitrogql_ast::operation::ExecutableDefinition"
+
+TESTS = ("contains",)                              # membership test on the visited collection
+MARKS = ("insert", "push", "push_back")            # marking a file as visited
+SHRINKS = {"remove", "clear", "retain", "drain", "take", "pop", "pop_front", "pop_back", "pop_first", "pop_last", "truncate",
+           "swap_remove", "split_off", "extract_if", "dedup", "retain_mut"}
+READS = {"contains", "len", "is_empty", "iter", "get", "extend", "reserve", "clone", "is_subset", "is_superset", "first", "last"}
+# in-place operations on a Vec that drop or reorder elements (iterator adaptors do not modify the list they read)
+IN_PLACE = {"sort", "sort_by", "sort_by_key", "sort_unstable", "sort_unstable_by", "sort_unstable_by_key", "sort_by_cached_key",
+            "reverse", "swap", "swap_remove", "retain", "retain_mut", "truncate", "drain", "remove", "pop", "clear", "rotate_left",
+            "rotate_right", "insert", "split_off", "dedup", "dedup_by", "dedup_by_key"}
+APPENDS = ("extend", "push", "append", "extend_from_slice")
+
+
+# ------------------------------------------------------------------------------------------------- generic shape helpers
+def strip(e):
+    """expression without the wrappers that carry no meaning (temporaries scope, parentheses, trivial blocks)"""
+    while e is not None:
+        k = e.get("k")
+        if k in ("DropTemps", "Paren", "Use") and "e" in e:
+            e = e["e"]
+        elif k == "BlockExpr" and not e["b"].get("stmts") and "tail" in e["b"]:
+            e = e["b"]["tail"]
+        elif k in ("Call", "MethodCall") and "inl" in e and strip(e["inl"]["body"]) is not e["inl"]["body"]:
+            e = e["inl"]["body"]        # an inlined helper whose body is a single expression stands for that expression
+        else:
+            break
+    return e
+
+
+def diverges(e):
+    """does control never fall out of the end of this expression/block (`continue`, `return`, `break`, `panic!` ...)"""
+    if e is None:
+        return False
+    if e.get("t") == "!":
+        return True
+    k = e.get("k")
+    if k in ("Ret", "Continue", "Break"):
+        return True
+    if k == "BlockExpr":
+        return diverges(e["b"])
+    if k == "Block":
+        for s in e.get("stmts", []):
+            x = s.get("e") if s.get("k") == "Stmt" else None
+            if x is not None and diverges(x):
+                return True
+        return diverges(e.get("tail"))
+    if k in ("DropTemps", "Paren", "Use"):
+        return diverges(e.get("e"))
+    return False
+
+
+def guards_of(fn, idx, stop=None):
+    """Guards under which nodes()[idx] is evaluated, innermost first, up to the function root (or the node `stop`), seen through
+    inlined helpers.  Each guard is a dict:
+      {"kind": "cond", "e": cond, "truth": bool}           an `if`: inside then (True) / else (False), or *after* an `if` whose
+                                                           then-branch diverges (False) / whose else-branch diverges (True)
+      {"kind": "pat", "e": init, "pat": pat, "truth": b}   `let pat = init else {..}`: after it (True) or inside the else (False)
+      {"kind": "arm", "e": scrut, "pat": pat, "arm": arm, "match": m}    inside the body of a source-level match arm, or after
+                                                           a `match` statement all of whose other arms diverge
+      {"kind": "arg", "e": receiver, "method": name, "call": node}       inside an argument (value or closure) of receiver.method(..)
+    `if let` shows up as kind "cond" with e = LetExpr (see `atomic_facts`)."""
+    acc = fn.nodes()
+    out = []
+    child = idx
+    p = acc[idx][1]
+    while p >= 0:
+        n = acc[p][0]
+        c = acc[child][0]
+        if stop is not None and c is stop:
+            break
+        k = n.get("k")
+        if k == "Arm":
+            pp = acc[p][1]
+            while pp >= 0 and acc[pp][0].get("k") != "Match":
+                pp = acc[pp][1]
+            m = acc[pp][0] if pp >= 0 else None
+            if m is not None and _within(n.get("body"), c) and m.get("src") == "Normal":
+                out.append({"kind": "arm", "e": m["scrut"], "pat": n["pat"], "arm": n, "match": m})
+        elif k == "If":
+            if _within(n.get("then"), c):
+                out.append({"kind": "cond", "e": n["cond"], "truth": True, "node": n})
+            elif "else" in n and _within(n.get("else"), c):
+                out.append({"kind": "cond", "e": n["cond"], "truth": False, "node": n})
+        elif k == "Let" and "els" in n and _within(n["els"], c):
+            out.append({"kind": "pat", "e": n.get("init"), "pat": n["pat"], "truth": False, "node": n})
+        elif k == "MethodCall" and any(a is c for a in n["args"]):
+            # a value (or closure) handed to a method of the receiver: `recv.ok_or_else(|| ..)`, `recv.ok_or(..)`, `recv.filter(|x| ..)`
+            out.append({"kind": "arg", "e": n["recv"], "method": n["method"], "call": n, "closure": c.get("k") == "Closure"})
+        elif k == "Block":
+            for s in n.get("stmts", []):
+                if s is c or _within(s, c):
+                    break
+                if s.get("k") == "Let" and "els" in s:
+                    out.append({"kind": "pat", "e": s.get("init"), "pat": s["pat"], "truth": True, "node": s})
+                    continue
+                e = strip(s.get("e")) if s.get("k") == "Stmt" else None
+                if e is not None and e.get("k") == "If":
+                    if diverges(e.get("then")) and not diverges(e.get("else")):
+                        out.append({"kind": "cond", "e": e["cond"], "truth": False, "node": e})
+                    elif "else" in e and diverges(e.get("else")) and not diverges(e.get("then")):
+                        out.append({"kind": "cond", "e": e["cond"], "truth": True, "node": e})
+                elif e is not None and e.get("k") == "Match" and e.get("src") == "Normal":
+                    # `match x { A => {}, B => continue }` as a statement: afterwards the arm that falls through was the one taken
+                    through = [a for a in e["arms"] if not diverges(a["body"])]
+                    if len(through) == 1 and len(e["arms"]) > 1:
+                        out.append({"kind": "arm", "e": e["scrut"], "pat": through[0]["pat"], "arm": through[0], "match": e})
+        child = p
+        p = acc[p][1]
+    return out
+
+
+def _within(root, node):
+    if root is None:
+        return False
+    st = [root]
+    while st:
+        x = st.pop()
+        if x is node:
+            return True
+        if isinstance(x, dict):
+            st.extend(v for v in x.values() if isinstance(v, (dict, list)))
+        elif isinstance(x, list):
+            st.extend(v for v in x if isinstance(v, (dict, list)))
+    return False
+
+
+def atomic_facts(e, truth):
+    """[(atomic condition, truth)] that follow from `e == truth`: `!a` flips, `a && b` true gives both, `a || b` false gives both;
+    anything else (incl. a conjunction known to be false) stays one opaque fact"""
+    e = strip(e)
+    if e is None:
+        return []
+    if e.get("k") == "Unary" and e.get("op") == "Not":
+        return atomic_facts(e["e"], not truth)
+    if e.get("k") == "Binary" and ((e.get("op") == "&&" and truth) or (e.get("op") == "||" and not truth)):
+        return atomic_facts(e["l"], truth) + atomic_facts(e["r"], truth)
+    return [(e, truth)]
+
+
+def index_of(fn, node):
+    for i, (n, _) in enumerate(fn.nodes()):
+        if n is node:
+            return i
+    return -1
+
+
+def guard_atoms(pv, guards):
+    a = set()
+    for g in guards:
+        a |= pv.atoms(g["e"])
+    return a
+
+
+def pattern_variants(node, adt_suffix):
+    """names of the variants of the enum `adt_suffix` that occur in patterns below `node` — or among the nodes of a list —
+    (match arms, `if let`, `let else`, `matches!`: any spelling of a test for the variant)"""
+    out = set()
+    for x in (node if isinstance(node, list) else subnodes(node)):
+        if x.get("k") in ("TupleStruct", "PatExpr") or (x.get("k") == "Struct" and "rest" in x):
+            d = norm(x.get("ctor_of") or x.get("def") or "")
+            if d and "::" in d:
+                owner, v = d.rsplit("::", 1)
+                if owner == adt_suffix or owner.endswith("::" + adt_suffix):
+                    out.add(v)
+    return out
+
+
+# ----------------------------------------------------------------------------------------------------------- anchors
+class Anchors:
+    pass
+
+
+_ANCHORS = {}
 
 
 def anchors(P):
-    """anchored by signature: the traversal takes &mut HashSet<PathBuf> and &mut Vec<ExecutableDefinition>"""
-    recs = [f for f in P.fns.values() if f.path.startswith(SEM) and any("HashSet<std::path::PathBuf>" in t for t in f.sig_inputs)
-            and any("Vec<nitrogql_ast::operation::ExecutableDefinition>" in t for t in f.sig_inputs)]
-    from facts import AnchorMissing
-    if len(recs) != 1:
-        raise AnchorMissing("import traversal (fn taking &mut HashSet<PathBuf> and &mut Vec<ExecutableDefinition>): %d candidates" % len(recs))
-    rec = recs[0]
-    entries = [f for f in P.fns.values() if f.path.startswith(SEM) and rec.path in P.callees_of(f)[0] and f.path != rec.path]
+    """The traversal, by role: the function of the semantics crate that receives the accumulated definitions as
+    `&mut Vec<ExecutableDefinition>` together with a `&mut` collection of `PathBuf` (the visited set, whatever its type);
+    the entry point is its unique other caller."""
+    if id(P) in _ANCHORS:
+        return _ANCHORS[id(P)]
+    cands = []
+    for f in P.fns.values():
+        if not f.path.startswith(SEM) or "::tests::" in f.path or f.kind not in ("Fn", "AssocFn"):
+            continue
+        di = [i for i, t in enumerate(f.sig_inputs) if t.startswith("&mut ") and "Vec<" + EXDEF in t]
+        vi = [i for i, t in enumerate(f.sig_inputs) if t.startswith("&mut ") and "std::path::PathBuf" in t and i not in di]
+        if len(di) == 1 and len(vi) == 1:
+            cands.append((f, vi[0], di[0]))
+    if len(cands) != 1:
+        raise AnchorMissing("import traversal (fn taking a `&mut` collection of PathBuf and `&mut Vec<ExecutableDefinition>`): %d candidates"
+                            % len(cands))
+    A = Anchors()
+    A.rec, A.vis_idx, A.defs_idx = cands[0]
+    rec = A.rec
+    A.vt = peel_ty(rec.sig_inputs[A.vis_idx])
+    entries = [f for f in P.fns.values() if f.path.startswith(SEM) and rec.path in P.callees_of(f)[0] and f.path != rec.path
+               and "::tests::" not in f.path]
+    # a helper between the entry and the traversal is fine: climb to the callers that are not themselves called by the traversal
+    reach = P.reachable([rec])
+    entries = [f for f in entries if f.path not in reach]
     if len(entries) != 1:
         raise AnchorMissing("entry point calling %s: %s" % (rec.path, [e.path for e in entries]))
-    return entries[0], rec
+    A.entry = entries[0]
+    A.T = inlined(P, rec)
+    A.pv = Prov(A.T)
+    A.import_adt = sem_adt(P, "Import").path
+    A.not_rec = lambda g: g.path != rec.path     # kept alive here: templates.inlined memoises on id(pred)
+
+    def pname(i):
+        p = A.T.params[i]
+        return A.pv.params.get(p.get("local")) if p.get("k") == "Binding" else None
+    A.vis_name, A.defs_name = pname(A.vis_idx), pname(A.defs_idx)
+    # parameters that carry the importing file: every binding of a parameter whose type mentions `Path` (not the visited set)
+    A.importer = set()
+    for i, p in enumerate(A.T.params):
+        if i in (A.vis_idx, A.defs_idx) or "std::path::Path" not in rec.sig_inputs[i]:
+            continue
+        for b in subnodes(p):
+            if b.get("k") == "Binding" and A.pv.params.get(b["local"]):
+                A.importer.add(A.pv.params[b["local"]])
+    _ANCHORS[id(P)] = A
+    return A
 
 
+def sem_adt(P, name):
+    """the ADT of the semantics crate with this name, wherever its module is"""
+    hits = [a for p, a in P.adts.items() if p.startswith(SEM) and p.split("::")[-1] == name]
+    if len(hits) != 1:
+        raise AnchorMissing("type `%s` of the semantics crate: %d candidates" % (name, len(hits)))
+    return hits[0]
+
+
+def enum_roles(adt):
+    """(name of the unit variant, name of the variant with a payload) of a two-variant enum such as ImportTargets {Wildcard,
+    Specific(names)} / ImportTarget {Wildcard, Name(ident)} — the variants are told apart by shape, not by name"""
+    unit = [v["name"] for v in adt.variants if not v["fields"]]
+    data = [v["name"] for v in adt.variants if v["fields"]]
+    if len(unit) != 1 or len(data) != 1:
+        raise AnchorMissing("enum %s is not {unit variant, variant with payload}: %s" % (adt.path, adt.variant_names()))
+    return unit[0], data[0]
+
+
+def is_vis(A, n, methods=None):
+    """is `n` a method call on the visited collection (by receiver type; a Vec is tested through its slice)"""
+    if n.get("k") != "MethodCall" or (methods is not None and n["method"] not in methods):
+        return False
+    t = peel_ty(n.get("recv_ty"))
+    if t == A.vt:
+        return True
+    return A.vt.startswith(("alloc::vec::Vec<", "alloc::collections::vec_deque::VecDeque<")) and t == "[std::path::PathBuf]"
+
+
+def mir_blocks(mq, hir_calls):
+    """MIR blocks of the call terminators that implement the given HIR call nodes (same callee, same source position)"""
+    out = []
+    for h in hir_calls:
+        s = (h.get("s") or [])[:2]
+        names = {norm(h.get("rd")), norm(h.get("callee"))} - {None}
+        for i, p, t in mq.calls():
+            if t.get("s") == s and (p in names or norm(t.get("func", {}).get("fn")) in names):
+                out.append(i)
+    return out
+
+
+def visited_fact(A, e, truth):
+    """what an atomic condition says about the current file: 'visited' / 'fresh' / None (says nothing we understand)"""
+    e = strip(e)
+    seen = set()
+    while e is not None and e.get("k") == "Path" and "local" in e and e["local"] not in seen:
+        # `let fresh = visited.insert(p); if !fresh { continue }`: a local with a single initialiser stands for it
+        seen.add(e["local"])
+        srcs = A.pv.src.get(e["local"], [])
+        if len(srcs) != 1 or srcs[0][0] is None or srcs[0][1]:
+            return None
+        e = strip(srcs[0][0])
+    if e is None or e.get("k") != "MethodCall":
+        return None
+    if is_vis(A, e, TESTS):
+        return "visited" if truth else "fresh"
+    if is_vis(A, e, ("insert",)):      # HashSet/BTreeSet::insert returns true iff the value was not present
+        return "fresh" if truth else "visited"
+    return None
+
+
+def visited_ifs(A):
+    """`if` expressions of the (inlined) traversal whose condition consults the visited collection, as dicts:
+      i, node;
+      all_vis  = the branch every visited file enters ("then"/"else"), None when the condition does not settle it
+      only_vis = the branch only visited files enter (for `contains(p) && extra` that is `then`, and all_vis is None)
+      after    = the statements that follow the `if` in its block"""
+    out = []
+    acc = A.T.nodes()
+    for i, (n, _) in enumerate(acc):
+        if n.get("k") != "If" or not any(is_vis(A, x, TESTS + ("insert",)) for x in subnodes(n["cond"])):
+            continue
+        when_true = {visited_fact(A, e, t) for e, t in atomic_facts(n["cond"], True)}
+        when_false = {visited_fact(A, e, t) for e, t in atomic_facts(n["cond"], False)}
+        only_vis = "then" if "visited" in when_true else ("else" if "visited" in when_false else None)
+        all_vis = "then" if "fresh" in when_false else ("else" if "fresh" in when_true else None)
+        # continuation: what follows the `if` in the enclosing block
+        after = []
+        child, p = i, acc[i][1]
+        while p >= 0 and acc[p][0].get("k") in ("Stmt", "DropTemps", "Paren", "Use"):
+            child, p = p, acc[p][1]
+        if p >= 0 and acc[p][0].get("k") == "Block":
+            b = acc[p][0]
+            stmts = b.get("stmts", [])
+            pos = [k for k, st in enumerate(stmts) if st is acc[child][0]]
+            if pos:
+                after = stmts[pos[0] + 1:] + ([b["tail"]] if "tail" in b else [])
+        out.append({"i": i, "node": n, "all_vis": all_vis, "only_vis": only_vis, "after": after})
+    return out
+
+
+def known_state(A, fn, idx):
+    """what the guards around nodes()[idx] establish about the current file: subset of {"visited", "fresh"}"""
+    known = set()
+    for g in guards_of(fn, idx):
+        facts = []
+        if g["kind"] == "cond":
+            facts = atomic_facts(g["e"], g["truth"])
+        elif g["kind"] == "arm" and pat_lits(g["pat"]) in ([True], [False]):      # `match visited.insert(p) { true => .., false => .. }`
+            facts = atomic_facts(g["e"], pat_lits(g["pat"])[0])
+        for e, truth in facts:
+            known.add(visited_fact(A, e, truth))
+    known.discard(None)
+    return known
+
+
+# ------------------------------------------------------------------------------------------------------------- R13-a
 def r13a(P, R):
-    entry, rec = anchors(P)
+    A = anchors(P)
+    rec, T = A.rec, A.T
     mq = MirQ(P.mir[rec.path])
     rec_calls = mq.calls_to(lambda p: p == rec.path)
     R.floor("R13-a", "recursive calls", len(rec_calls), 1)
-    contains = mq.calls_to(lambda p: p == HS + "::contains")
-    inserts = mq.calls_to(lambda p: p == HS + "::insert")
+    # the operations on the visited set, each represented by the node of the traversal's own body that performs it: the method
+    # call itself, or the call of a (virtually inlined) helper that performs it unconditionally
+    accT = T.nodes()
+
+    def own_site(i):
+        site, p = None, accT[i][1]
+        while p >= 0:
+            if "inl" in accT[p][0]:
+                site = p
+            p = accT[p][1]
+        if site is None:
+            return accT[i][0]
+        inner = [g for g in guards_of(T, i, stop=accT[site][0]) if g["kind"] in ("cond", "pat", "arm")]
+        return None if inner else accT[site][0]
+    def value_used(i):
+        """is the value of the call at nodes()[i] consumed (condition, `let`, scrutinee, argument ..) rather than dropped by `;` —
+        the value of a helper's tail expression being the value of the call of the helper"""
+        child, p = i, accT[i][1]
+        while p >= 0:
+            n, k = accT[p][0], accT[p][0].get("k")
+            if k == "Stmt":
+                return False
+            if k in ("DropTemps", "Paren", "Use") or (k == "Block" and n.get("tail") is accT[child][0]) or k == "BlockExpr" \
+                    or (k in ("Call", "MethodCall") and "inl" in n and strip(n["inl"]["body"]) is not None and _within(n["inl"]["body"], accT[child][0])):
+                child, p = p, accT[p][1]
+                continue
+            return k != "Block"
+        return False
+    tests_T = [i for i, (n, _) in enumerate(accT) if is_vis(A, n, TESTS) or (is_vis(A, n, ("insert",)) and value_used(i))]
+    marks_T = [i for i, (n, _) in enumerate(accT) if is_vis(A, n, MARKS)]
+    tests_h = [x for x in map(own_site, tests_T) if x is not None]
+    marks_h = [x for x in map(own_site, marks_T) if x is not None]
+    tests = mir_blocks(mq, tests_h)
+    marks = mir_blocks(mq, marks_h)
     for rc in rec_calls:
-        ok_c = any(mq.dominates(c, rc) for c in contains)
-        ok_i = any(mq.dominates(i, rc) for i in inserts)
-        R.check("R13-a", "guard:contains", ok_c, "the recursive call is dominated by visited.contains(..)",
-                "the recursive import traversal is not guarded by a visited-check: an import cycle does not terminate", loc=rec.loc())
-        R.check("R13-a", "guard:insert", ok_i, "the recursive call is dominated by visited.insert(..)",
-                "the file is not marked visited before the traversal descends into it", loc=rec.loc())
-    # the contains-check actually skips: its true edge does not reach the recursive call
-    pv = Prov(rec)
-    skip_ok = False
-    for i, (n, _) in enumerate(rec.nodes()):
-        if n.get("k") == "If" and any((call_name(x) or "") == HS + "::contains" for x in subnodes(n["cond"])):
-            neg = any(x.get("k") == "Unary" and x.get("op") == "Not" for x in subnodes(n["cond"]))
-            branch = n.get("else") if neg else n["then"]
-            if branch is not None:
-                kinds = [x.get("k") for x in subnodes(branch)]
-                if ("Continue" in kinds or "Ret" in kinds) and not any(call_name(x) == rec.path for x in subnodes(branch) if x.get("k") == "Call"):
-                    skip_ok = True
-    R.check("R13-a", "guard:skips", skip_ok, "a visited file is skipped", "the visited-check does not skip already visited files", loc=rec.loc())
-    # visited only grows: the only methods applied to it are contains/insert
-    ops = set()
-    for n in rec.walk():
-        if n.get("k") == "MethodCall" and HS in norm(n.get("recv_ty", "")):
-            ops.add(n["method"])
-    for n in entry.walk():
-        if n.get("k") == "MethodCall" and HS in norm(n.get("recv_ty", "")):
-            ops.add(n["method"])
-    R.check("R13-a", "visited-monotone", ops <= {"contains", "insert"},
-            "the visited set only grows (contains/insert)",
-            "the visited set is also modified by %s: a file reached through two paths is expanded twice (duplicate definitions)"
-            % sorted(ops - {"contains", "insert"}), loc=rec.loc())
+        ok_c = any(mq.dominates(c, rc) for c in tests)
+        ok_i = any(mq.dominates(i, rc) for i in marks)
+        for key, ok, here, anywhere, msg_ok, msg_bad in (
+                ("guard:contains", ok_c, tests_h, tests_T, "the recursive call is dominated by a membership test on the visited set",
+                 "the recursive import traversal is not guarded by a visited-check: an import cycle does not terminate"),
+                ("guard:insert", ok_i, marks_h, marks_T, "the recursive call is dominated by visited.insert(..)",
+                 "the file is not marked visited before the traversal descends into it")):
+            if ok:
+                R.holds("R13-a", key, msg_ok, loc=rec.loc())
+            elif not here and anywhere:
+                R.undecided("R13-a", key, "the visited set is consulted/updated only under a condition inside a helper of %s; dominance across "
+                            "the call is not decided" % rec.path, loc=rec.loc())
+            else:
+                R.violated("R13-a", key, msg_bad, loc=rec.loc())
+    # the visited-check actually skips: at the recursive call the file is known to be fresh
+    calls = [i for i, (n, _) in enumerate(T.nodes()) if n.get("k") == "Call" and call_name(n) == rec.path]
+    for j in calls:
+        if "fresh" in known_state(A, T, j):
+            R.holds("R13-a", "guard:skips", "a visited file is skipped (the recursive call is only reached for a file that was not visited)", loc=rec.loc())
+            continue
+        dead = [v for v in visited_ifs(A) if v["all_vis"] and v["only_vis"] and not diverges(v["node"].get("then")) and not diverges(v["node"].get("else"))
+                and not _within(v["node"].get("then"), T.nodes()[j][0]) and not _within(v["node"].get("else"), T.nodes()[j][0])]
+        if dead:
+            R.violated("R13-a", "guard:skips", "the visited-check does not skip already visited files: neither branch of the test leaves the "
+                       "iteration and the recursive call is outside both", loc=rec.loc())
+        else:
+            R.undecided("R13-a", "guard:skips", "how the visited-check keeps the recursion away from visited files is not recognised", loc=rec.loc())
+    # visited only grows
+    ops, unknown = set(), set()
+    for f in (T, inlined(P, A.entry, pred=A.not_rec)):      # the traversal and its entry point, each with its helpers inlined
+        for n in f.walk():
+            if is_vis(A, n):
+                if n["method"] in SHRINKS:
+                    ops.add(n["method"])
+                elif n["method"] not in READS and n["method"] not in MARKS:
+                    unknown.add(n["method"])
+    if ops:
+        R.violated("R13-a", "visited-monotone", "the visited set is also modified by %s: a file reached through two paths is expanded twice (duplicate definitions)"
+                   % sorted(ops), loc=rec.loc())
+    elif unknown:
+        R.undecided("R13-a", "visited-monotone", "operations %s on the visited set are not classified" % sorted(unknown), loc=rec.loc())
+    else:
+        R.holds("R13-a", "visited-monotone", "the visited set only grows (membership tests and insertions)", loc=rec.loc())
 
 
+# ------------------------------------------------------------------------------------------------------------- R13-b
 def r13b(P, R):
-    entry, rec = anchors(P)
-    pv = Prov(rec)
+    A = anchors(P)
+    rec, T, pv = A.rec, A.T, A.pv
     n = 0
-    for c in rec.walk():
-        if c.get("k") != "MethodCall":
+    for c in T.walk():
+        if c.get("k") != "MethodCall" or not c["args"]:
             continue
         cn = call_name(c) or ""
-        if cn in (HS + "::contains", HS + "::insert") or cn.endswith("OperationResolver::resolve"):
+        if is_vis(A, c, TESTS + MARKS) or cn.endswith("OperationResolver::resolve"):
             n += 1
-            a = pv.atoms(c["args"][0])
+            a = pv.deep_atoms(c["args"][0])
             ok = has_call(a, "relative_path::resolve_relative_path")
             R.check("R13-b", "key:%s" % c["method"], ok, "`%s` is keyed by the normalised resolved path" % c["method"],
                     "`%s` in the import traversal is not keyed by resolve_relative_path(..): differently spelled paths to one "
                     "file are treated as different files" % c["method"], loc=rec.loc())
-    R.floor("R13-b", "keyed operations", n, 3)
+    R.floor("R13-b", "keyed operations", n, 2)
     # the resolved path is computed from the importing document's path and the import's own path string
-    calls = [c for c in rec.walk() if c.get("k") == "Call" and (call_name(c) or "").endswith("resolve_relative_path")]
+    calls = [c for c in T.walk() if c.get("k") == "Call" and (call_name(c) or "").endswith("resolve_relative_path") and len(c["args"]) == 2]
     R.floor("R13-b", "resolve_relative_path calls", len(calls), 1)
     for c in calls:
         a0, a1 = pv.atoms(c["args"][0]), pv.atoms(c["args"][1])
-        ok = ("param", "document") in a0 and has_field(a1, SEM + "operation_extension_resolver::operation_extension::Import", "path")
+        if not A.importer:
+            R.undecided("R13-b", "relative-to-importer", "no parameter of %s carries the importing file's path" % rec.path, loc=rec.loc())
+            continue
+        ok = any(("param", p) in a0 for p in A.importer) and has_field(a1, A.import_adt, "path")
         R.check("R13-b", "relative-to-importer", ok, "import paths are resolved relative to the importing file",
                 "resolve_relative_path is not called with (importing file, import.path)", loc=rec.loc())
     # the recursive call passes the imported file's own path and document
-    for c in rec.walk():
+    for c in T.walk():
         if c.get("k") == "Call" and call_name(c) == rec.path:
-            a = pv.atoms(c["args"][0])
+            a = set()
+            for i, x in enumerate(c["args"]):
+                if i not in (A.vis_idx, A.defs_idx):
+                    a |= pv.deep_atoms(x)
             ok = has_call(a, "resolve_relative_path") and has_call(a, "OperationResolver::resolve")
             R.check("R13-b", "recursion-root", ok, "recursion continues from the imported file (its path and its document)",
                     "the recursive call is not rooted at the imported file", loc=rec.loc())
 
 
+# ------------------------------------------------------------------------------------------------------------- R13-c
+def target_branches(P, T):
+    """Every place where the traversal branches on the kind of an import: [(node, {"Wildcard"|"Specific": body | None})] — a
+    `match`, an `if let .. else ..`; the body of a kind that is only covered by the fall-through after a `let else` is None.
+    The two kinds are the unit variant and the variant with a payload of ImportTargets, whatever they are called."""
+    adt = sem_adt(P, "ImportTargets")
+    unit, data = enum_roles(adt)
+    role = {unit: "Wildcard", data: "Specific"}
+    allv = set(role)
+    out = []
+
+    def is_targets(e):
+        return peel_ty((e or {}).get("t")).strip().split("<")[0] == adt.path
+    for n in T.walk():
+        k = n.get("k")
+        tab = None
+        if k == "Match" and n.get("src") == "Normal" and not n.get("x") and is_targets(n["scrut"]):
+            tab, rest = {}, set(allv)
+            for arm in n["arms"]:
+                v, catch = arm_variants({"arms": [arm]})
+                covered = set(rest) if catch else (v & rest)
+                for x in covered:
+                    tab.setdefault(x, arm["body"])
+                if "guard" not in arm:
+                    rest -= covered
+        elif k == "If" and strip(n["cond"]).get("k") == "LetExpr" and is_targets(strip(n["cond"])["init"]):
+            v, catch = arm_variants({"arms": [{"pat": strip(n["cond"])["pat"]}]})
+            tab = {x: n["then"] for x in (allv if catch else v & allv)}
+            for x in allv - set(tab):
+                tab[x] = n.get("else")
+        elif k == "Let" and "els" in n and is_targets(n.get("init")):
+            v, catch = arm_variants({"arms": [{"pat": n["pat"]}]})
+            tab = {x: None for x in v & allv}
+            for x in allv - set(tab):
+                tab[x] = n["els"]
+        if tab is not None:
+            out.append((n, {role[x]: b for x, b in tab.items()}))
+    return out, set(role.values())
+
+
+def slice_nodes(T, pv, idx, stop=None):
+    """HIR nodes the value/effect at nodes()[idx] may depend on: its own subtree, the initialisers of every local it mentions
+    (transitively), and the conditions/patterns of the guards around it.  Over-approximation in the sense of Prov."""
+    acc = T.nodes()
+    roots = [acc[idx][0]]
+    for g in guards_of(T, idx, stop):
+        roots.append(g["e"])
+        if g.get("pat") is not None:
+            roots.append(g["pat"])
+    out, seen_local, seen = [], set(), set()
+    while roots:
+        r = roots.pop()
+        if r is None or id(r) in seen:
+            continue
+        seen.add(id(r))
+        for x in subnodes(r):
+            out.append(x)
+            if x.get("k") == "Path" and "local" in x and x["local"] not in seen_local:
+                seen_local.add(x["local"])
+                roots.extend(src for src, _ in pv.src.get(x["local"], []) if src is not None)
+    return out
+
+
+def diag_exists(P, rec, variant):
+    """is there (still) an enum of the semantics crate with a variant of this name"""
+    return any(variant in a.variant_names() for p, a in P.adts.items() if p.startswith(SEM) and a.kind == "Enum")
+
+
+def is_append(x):
+    return x.get("k") == "MethodCall" and x["method"] in APPENDS and ("Vec<" + EXDEF) in norm(x.get("recv_ty", "") or "")
+
+
 def r13c(P, R):
-    entry, rec = anchors(P)
-    IMPORT = SEM + "operation_extension_resolver::operation_extension::Import"
-    pv = Prov(rec)
-    # TARGETS ON EVERY PATH: the skip branch of the visited check must not ignore import.targets
-    for i, (n, _) in enumerate(rec.nodes()):
-        if n.get("k") == "If" and any((call_name(x) or "") == HS + "::contains" for x in subnodes(n["cond"])):
-            branch = n["then"]
-            reads = has_field(pv.atoms(branch), IMPORT, "targets")
-            skips = any(x.get("k") in ("Continue", "Ret") for x in subnodes(branch))
-            R.check("R13-c", "visited-skip-reads-targets", reads or not skips,
-                    "the requested names are honoured for an already visited file",
-                    "when the target file is already visited the loop `continue`s without reading import.targets: a second import "
-                    "of the same file with other names contributes nothing (diamond: main imports F from y and A from x; y imports B from x => A is lost)",
-                    loc=rec.loc())
-    # both target kinds handled
-    ms = [m for m in matches_on(rec, "ImportTargets") if not m.get("x")]
-    R.floor("R13-c", "matches over ImportTargets", len(ms), 1)
-    for m in ms:
-        v, catch = arm_variants(m)
-        R.check("R13-c", "targets-kinds", v == {"Wildcard", "Specific"} and not catch, "wildcard and specific imports handled",
-                "import targets handled: %s" % sorted(v), loc=rec.loc())
-        for arm in m["arms"]:
-            av, _ = arm_variants({"arms": [arm]})
-            body_atoms = pv.atoms(arm["body"])
-            # only fragments are imported
-            filt = [x for x in subnodes(arm["body"]) if x.get("k") == "MethodCall" and x["method"] == "filter"]
-            frag_only = any(any("FragmentDefinition" in norm(p.get("def") or p.get("ctor_of") or "") for p in subnodes(f["args"][0])) for f in filt)
-            R.check("R13-c", "fragments-only:%s" % sorted(av)[0], bool(filt) and frag_only, "only fragment definitions are imported",
-                    "the %s arm does not restrict imports to fragment definitions" % sorted(av)[0], loc=rec.loc())
-            adds = [x for x in subnodes(arm["body"]) if x.get("k") == "MethodCall" and x["method"] in ("extend", "push")
-                    and "ExecutableDefinition" in norm(x.get("recv_ty", ""))]
-            R.check("R13-c", "appends:%s" % sorted(av)[0], len(adds) >= 1, "imported fragments are appended to the definitions",
-                    "the %s arm does not append to the definitions" % sorted(av)[0], loc=rec.loc())
-            if "Specific" in av:
-                # name filter compares target.name with def.name.name
-                ok = has_field(body_atoms, "nitrogql_ast::operation::FragmentDefinition", "name") and has_field(body_atoms, "nitrogql_ast::base::Ident", "name")
-                R.check("R13-c", "specific-by-name", ok, "specific imports are selected by fragment name", "specific imports are not selected by name", loc=rec.loc())
-                errs = [x for x in subnodes(arm["body"]) if x.get("k") == "Struct" and "rest" not in x and norm(x.get("variant", "")).endswith("FragmentNotFound")]
-                R.check("R13-c", "missing-name-error", len(errs) == 1, "a missing fragment name is reported", "no FragmentNotFound diagnostic", loc=rec.loc())
-    # FragmentNotFound is decided against the imported file's own definitions, not against what has been collected so far
-    nf = [(i, x) for i, (x, _) in enumerate(rec.nodes()) if x.get("k") == "Struct" and "rest" not in x and norm(x.get("variant", "")).endswith("FragmentNotFound")]
-    defs_param = pv.params.get([p for p, t in zip(rec.params, rec.sig_inputs) if "Vec<nitrogql_ast::operation::ExecutableDefinition>" in t][0].get("local"))
-    for i, x in nf:
-        guards = [c for c in enclosing_contexts(rec, i) if c[0] in ("if-then", "arm", "let-else")]
-        g = guards[0] if guards else None
-        ge = None if g is None else (g[1]["cond"] if g[0] == "if-then" else (g[1]["scrut"] if g[0] == "arm" else g[1].get("init")))
-        a = pv.atoms(ge) if ge is not None else frozenset()
-        ok = has_call(a, "OperationResolver::resolve") and has_field(a, "nitrogql_ast::operation::OperationDocument", "definitions") and ("param", defs_param) not in a
-        R.check("R13-c", "missing-name-source", ok, "a requested name is missing iff the imported file does not define it",
-                "FragmentNotFound is decided by looking into %s: a name the target file does not define is accepted whenever a same-named "
-                "fragment was already collected from elsewhere (and the verdict depends on the order of the import lines)"
-                % ("the accumulated `definitions`" if ("param", defs_param) in a else "something other than the imported document"), loc=rec.loc())
-    # each definition is appended at most once: appends happen only on the first visit of a file (the skip test is exactly
-    # `visited.contains(path)`), unless they are individually guarded by a membership test
-    for i, (n, _) in enumerate(rec.nodes()):
-        if n.get("k") == "If" and any((call_name(x) or "") == HS + "::contains" for x in subnodes(n["cond"])):
-            cond = n["cond"]
-            while cond.get("k") in ("DropTemps", "Paren"):
-                cond = cond["e"]
-            exact = cond.get("k") == "MethodCall" and (call_name(cond) or "") == HS + "::contains"
-            if not exact:
-                adds = [(j, x) for j, (x, _) in enumerate(rec.nodes()) if x.get("k") == "MethodCall" and x["method"] in ("extend", "push")
-                        and "ExecutableDefinition" in norm(x.get("recv_ty", ""))]
-                unguarded = []
-                for j, x in adds:
-                    conds = [c[1]["cond"] for c in enclosing_contexts(rec, j) if c[0] in ("if-then", "if-else")]
-                    conds += [y["args"][0] for y in subnodes(x) if y.get("k") == "MethodCall" and y["method"] == "filter"]
-                    if not any(("param", defs_param) in pv.atoms(c) for c in conds):
-                        unguarded.append(x["method"])
-                R.check("R13-c", "append-once", not unguarded, "appends are individually de-duplicated",
-                        "the visited-skip is weakened to `%s`-with-extra-conditions, so the appends (%s) also run for a file that was already "
-                        "visited, with no per-definition membership test: its fragments are appended a second time"
-                        % ("contains", unguarded), loc=rec.loc())
+    A = anchors(P)
+    rec, T, pv = A.rec, A.T, A.pv
+    acc = T.nodes()
+    loc = rec.loc()
+    # TARGETS ON EVERY PATH: the branch taken for an already visited file must not ignore import.targets
+    vifs = visited_ifs(A)
+    for v in vifs:
+        n = v["node"]
+        which = v["all_vis"] or v["only_vis"]
+        if which is None:
+            R.undecided("R13-c", "visited-skip-reads-targets", "which branch of the test on the visited set is taken for a visited file is not recognised", loc=loc)
+            continue
+        branch = n.get(which)
+        reads = branch is not None and has_field(pv.atoms(branch), A.import_adt, "targets")
+        if not reads and not diverges(branch):
+            reads = any(has_field(pv.atoms(st), A.import_adt, "targets") for st in v["after"])    # falls through to the code after the `if`
+        R.check("R13-c", "visited-skip-reads-targets", reads,
+                "the requested names are honoured for an already visited file",
+                "when the target file is already visited the loop `continue`s without reading import.targets: a second import "
+                "of the same file with other names contributes nothing (diamond: main imports F from y and A from x; y imports B from x => A is lost)",
+                loc=loc)
+    if not vifs:
+        R.undecided("R13-c", "visited-skip-reads-targets", "no `if` on the visited set found in %s (or its helpers)" % rec.path, loc=loc)
+    # both target kinds handled, each by code that imports fragments only, by name, and appends them
+    branches, allv = target_branches(P, T)
+    branches = [(n, tab) for n, tab in branches if not all(b is None or lit_value(strip(b)) is not None for b in tab.values())]
+    R.floor("R13-c", "branching over ImportTargets", len(branches), 1)
+    appends_all = [j for j, (x, _) in enumerate(acc) if is_append(x)]
+    nf_all = [j for j, (x, _) in enumerate(acc) if x.get("k") == "Struct" and "rest" not in x and norm(x.get("variant", "")).endswith("FragmentNotFound")]
+    for node, tab in branches:
+        missing = sorted(v for v in allv if tab.get(v) is None)
+        if missing:
+            R.undecided("R13-c", "targets-kinds", "the code that handles %s imports is not a branch of the test on import.targets (fall-through); "
+                        "not decided" % missing, loc=loc)
+        else:
+            R.holds("R13-c", "targets-kinds", "wildcard and specific imports handled", loc=loc)
+        for v in sorted(allv):
+            body = tab.get(v)
+            if body is None:
+                continue
+            inside = [j for j in appends_all if _within(body, acc[j][0])]
+            # appended
+            if inside:
+                R.holds("R13-c", "appends:%s" % v, "imported fragments are appended to the definitions", loc=loc)
+            elif appends_all:
+                R.undecided("R13-c", "appends:%s" % v, "the %s branch appends nothing itself; whether a later append consumes its result is not decided" % v, loc=loc)
             else:
-                R.holds("R13-c", "append-once", "appends run only on the first visit of a file (skip test is exactly visited.contains)")
-    # error for a dangling file
-    errs = [(i, x) for i, (x, _) in enumerate(rec.nodes()) if x.get("k") == "Struct" and "rest" not in x and norm(x.get("variant", "")).endswith("FileNotFound")]
-    ok = False
-    for i, x in errs:
-        for ctx in enclosing_contexts(rec, i):
-            if ctx[0] == "let-else" and has_call(pv.atoms(ctx[1].get("init")), "OperationResolver::resolve"):
-                ok = True
-    R.check("R13-c", "dangling-file-error", ok, "FileNotFound exactly when the resolver does not know the file",
-            "FileNotFound is not tied to the resolver returning None", loc=rec.loc())
-    # positions of both diagnostics come from the import statement
-    for x in [x for _, x in errs]:
+                R.violated("R13-c", "appends:%s" % v, "the %s arm does not append to the definitions (no push/extend on the definitions "
+                           "list anywhere in the traversal)" % v, loc=loc)
+            # only fragments are imported: every append sits behind a test for ExecutableDefinition::FragmentDefinition
+            if inside:
+                bare = [j for j in inside if "FragmentDefinition" not in pattern_variants(slice_nodes(T, pv, j), "ExecutableDefinition")]
+                R.check("R13-c", "fragments-only:%s" % v, not bare, "only fragment definitions are imported",
+                        "the %s arm does not restrict imports to fragment definitions: nothing the appended values derive from, and no "
+                        "condition around the append, tests for ExecutableDefinition::FragmentDefinition" % v, loc=loc)
+            if v == "Specific":
+                body_atoms = pv.atoms(body)
+                ok = has_field(body_atoms, "nitrogql_ast::operation::FragmentDefinition", "name") and has_field(body_atoms, "nitrogql_ast::base::Ident", "name")
+                R.check("R13-c", "specific-by-name", ok, "specific imports are selected by fragment name", "specific imports are not selected by name", loc=loc)
+                errs = [j for j in nf_all if _within(body, acc[j][0])]
+                if errs:
+                    R.holds("R13-c", "missing-name-error", "a missing fragment name is reported", loc=loc)
+                elif nf_all:
+                    R.undecided("R13-c", "missing-name-error", "FragmentNotFound is constructed outside the branch for specific imports", loc=loc)
+                elif not diag_exists(P, rec, "FragmentNotFound"):
+                    R.undecided("R13-c", "missing-name-error", "the diagnostics of the import resolver have no variant `FragmentNotFound` any more (renamed?)", loc=loc)
+                else:
+                    R.violated("R13-c", "missing-name-error", "no FragmentNotFound diagnostic is constructed anywhere in the traversal", loc=loc)
+                # FragmentNotFound is decided against the imported file's own definitions, not against what has been collected so far
+                for j in errs:
+                    a = guard_atoms(pv, guards_of(T, j, stop=body))
+                    from_imported = has_call(a, "OperationResolver::resolve") and has_field(a, "nitrogql_ast::operation::OperationDocument", "definitions")
+                    from_acc = ("param", A.defs_name) in a
+                    if from_imported and not from_acc:
+                        R.holds("R13-c", "missing-name-source", "a requested name is missing iff the imported file does not define it", loc=loc)
+                    elif from_imported:
+                        R.undecided("R13-c", "missing-name-source", "the condition for FragmentNotFound mentions both the imported document and the "
+                                    "accumulated definitions", loc=loc)
+                    else:
+                        R.violated("R13-c", "missing-name-source",
+                                   "FragmentNotFound is decided by looking into %s: a name the target file does not define is accepted whenever a same-named "
+                                   "fragment was already collected from elsewhere (and the verdict depends on the order of the import lines)"
+                                   % ("the accumulated `definitions`" if from_acc else "something other than the imported document"), loc=loc)
+    # each definition is appended at most once: every append is only reached for a file that is known not to have been visited
+    # before, or is individually guarded by a membership test on the accumulated definitions
+    weakened = [v for v in vifs if v["only_vis"] and not v["all_vis"]]
+    unguarded, unknown = [], []
+    for j in appends_all:
+        if "fresh" in known_state(A, T, j):
+            continue
+        conds = [g["e"] for g in guards_of(T, j) if g["kind"] == "cond"]
+        conds += [y["args"][0] for y in subnodes(acc[j][0]) if y.get("k") == "MethodCall" and y["method"] == "filter" and y["args"]]
+        if any(("param", A.defs_name) in pv.atoms(c) for c in conds):
+            continue
+        (unguarded if weakened else unknown).append(acc[j][0]["method"])
+    if unguarded:
+        R.violated("R13-c", "append-once",
+                   "the visited-skip is weakened to `%s`-with-extra-conditions, so the appends (%s) also run for a file that was already "
+                   "visited, with no per-definition membership test: its fragments are appended a second time" % ("contains", unguarded), loc=loc)
+    elif unknown:
+        R.undecided("R13-c", "append-once", "the appends (%s) are not seen to run only on the first visit of a file" % unknown, loc=loc)
+    elif appends_all:
+        R.holds("R13-c", "append-once", "appends run only on the first visit of a file (they are only reached when the visited-check says so)")
+    # error for a dangling file: FileNotFound is constructed under a condition on the resolver's answer
+    errs = [(j, x) for j, (x, _) in enumerate(acc) if x.get("k") == "Struct" and "rest" not in x and norm(x.get("variant", "")).endswith("FileNotFound")]
+    if not errs and not diag_exists(P, rec, "FileNotFound"):
+        R.undecided("R13-c", "dangling-file-error", "the diagnostics of the import resolver have no variant `FileNotFound` any more (renamed?)", loc=loc)
+    elif not errs:
+        R.violated("R13-c", "dangling-file-error", "no FileNotFound diagnostic is constructed anywhere in the traversal: a dangling import is not reported", loc=loc)
+    for j, x in errs:
+        gs = guards_of(T, j)
+        ok = has_call(guard_atoms(pv, gs), "OperationResolver::resolve")
+        if ok:
+            R.holds("R13-c", "dangling-file-error", "FileNotFound is raised under a condition on the resolver's answer", loc=loc)
+        elif not gs:
+            R.undecided("R13-c", "dangling-file-error", "the condition under which FileNotFound is constructed is not recognised", loc=loc)
+        else:
+            R.violated("R13-c", "dangling-file-error", "FileNotFound is not tied to the resolver returning None: none of the %d conditions around its "
+                       "construction depends on OperationResolver::resolve" % len(gs), loc=loc)
+        # positions of the diagnostic come from the import statement
         pos = [f for f in x["fields"] if f["name"] == "position"]
         ok = bool(pos) and has_field(pv.atoms(pos[0]["e"]), "nitrogql_ast::value::StringValue", "position")
-        R.check("R13-c", "file-error-position", ok, "FileNotFound is positioned at the import path", "FileNotFound carries another position", loc=rec.loc())
+        R.check("R13-c", "file-error-position", ok, "FileNotFound is positioned at the import path", "FileNotFound carries another position", loc=loc)
 
 
+# ------------------------------------------------------------------------------------------------------------- R13-d
 def r13d(P, R):
-    entry, rec = anchors(P)
-    pv = Prov(entry)
-    inserts = [c for c in entry.walk() if c.get("k") == "MethodCall" and (call_name(c) or "") == HS + "::insert"]
-    ok = any(("param", "document") in pv.atoms(c["args"][0]) for c in inserts)
-    R.check("R13-d", "root-visited", ok, "the root file is marked visited before the traversal",
-            "%s does not insert the root document's own path into `visited`: an import cycle leading back to the root appends the "
-            "root's own fragments a second time (duplicate definitions => check rejects a valid project)" % entry.path, loc=entry.loc())
+    A = anchors(P)
+    entry, rec = A.entry, A.rec
+    E = inlined(P, entry, pred=A.not_rec)
+    pv = Prov(E)
+    roots = set()
+    for i, p in enumerate(E.params):
+        if "std::path::Path" in entry.sig_inputs[i]:
+            roots |= {pv.params[b["local"]] for b in subnodes(p) if b.get("k") == "Binding" and b["local"] in pv.params}
+    marks = [c for c in E.walk() if is_vis(A, c, MARKS) and c["args"]]
+    # ... or the collection handed to the traversal is created with the root in it (`vec![root]`, `HashSet::from([root])`, ..)
+    handed = [c["args"][A.vis_idx] for c in E.walk() if c.get("k") == "Call" and call_name(c) == rec.path and len(c["args"]) > A.vis_idx]
+    # ... or the traversal itself marks the file it is called for (its own path, not the resolved path of an import)
+    own = [c for c in A.T.walk() if is_vis(A, c, MARKS) and c["args"] and any(("param", p) in A.pv.atoms(c["args"][0]) for p in A.importer)
+           and not has_call(A.pv.atoms(c["args"][0]), "resolve_relative_path")]
+    if not roots:
+        R.undecided("R13-d", "root-visited", "no parameter of %s carries the root file's path" % entry.path, loc=entry.loc())
+    else:
+        ok = any(("param", r) in pv.atoms(e) for e in [c["args"][0] for c in marks] + handed for r in roots) or bool(own)
+        R.check("R13-d", "root-visited", ok, "the root file is marked visited before the traversal",
+                "%s does not insert the root document's own path into `visited`: an import cycle leading back to the root appends the "
+                "root's own fragments a second time (duplicate definitions => check rejects a valid project)" % entry.path, loc=entry.loc())
     # result = own definitions ++ imported, position preserved
-    docs = [x for x in entry.walk() if x.get("k") == "Struct" and "rest" not in x and norm(x.get("adt", "")).endswith("OperationDocument")]
+    docs = [x for x in E.walk() if x.get("k") == "Struct" and "rest" not in x and norm(x.get("adt", "")).endswith("OperationDocument")]
     R.floor("R13-d", "result document", len(docs), 1)
     for d in docs:
         a = pv.atoms(d)
         ok = has_field(a, "nitrogql_ast::operation::OperationDocument", "definitions") and has_field(a, "nitrogql_ast::operation::OperationDocument", "position")
         R.check("R13-d", "own-definitions-first", ok, "the result starts from the file's own definitions and keeps its position",
                 "the result document is not built from the root's definitions/position", loc=entry.loc())
-    bad = [c["method"] for f in (entry, rec) for c in f.walk() if c.get("k") == "MethodCall" and c["method"] in
-           (LOSSY_OR_REORDERING - {"filter"}) and "ExecutableDefinition" in norm(c.get("recv_ty", ""))]
+    # the accumulated list is never shrunk or reordered; the root's own definitions are taken as they are
+    bad = [c["method"] for c in E.walk() if c.get("k") == "MethodCall" and c["method"] in LOSSY_OR_REORDERING
+           and EXDEF in norm(c.get("recv_ty", "") or "")]
+    for c in A.T.walk():
+        if c.get("k") == "MethodCall" and c["method"] in IN_PLACE and ("Vec<" + EXDEF) in norm(c.get("recv_ty", "") or "") \
+                and ("param", A.defs_name) in A.pv.atoms(c["recv"]):
+            bad.append(c["method"])
     R.check("R13-d", "no-dedup-hacks", not bad, "definitions are never removed/reordered after being appended",
             "definitions list is post-processed with %s" % bad, loc=rec.loc())
 
 
+# ------------------------------------------------------------------------------------------------------------- R13-e
+def extension_resolver(P):
+    f = P.fn(SEM + "operation_extension_resolver::resolve_operation_extensions", required=False)
+    if f is not None:
+        return f
+    # by role: OperationDocumentExt -> (OperationDocument, OperationExtension)
+    c = [g for g in P.fns.values() if g.path.startswith(SEM) and "::tests::" not in g.path and any("OperationDocumentExt" in t for t in g.sig_inputs)
+         and "OperationExtension" in (g.sig_output or "") and "OperationDocument" in (g.sig_output or "")]
+    if len(c) != 1:
+        raise AnchorMissing("extension resolver (OperationDocumentExt -> (OperationDocument, OperationExtension)): %d candidates" % len(c))
+    return c[0]
+
+
+def may_match(match, value):
+    """arms that can be selected for the abstract value, in order: a guarded arm may decline, the first unguarded one ends the search"""
+    out = []
+    for arm in match["arms"]:
+        if pat_matches(arm["pat"], value):
+            out.append(arm)
+            if "guard" not in arm:
+                break
+    return out
+
+
 def r13e(P, R):
     """import lines for one path are merged, whatever lies between them; wildcard/specific exclusivity table"""
-    f = P.fn(SEM + "operation_extension_resolver::resolve_operation_extensions")
+    f0 = extension_resolver(P)
+    f = inlined(P, f0)
     pv = Prov(f)
     # the lookup of an existing entry must scan the whole list
-    removes = [c for c in f.walk() if c.get("k") == "MethodCall" and c["method"] == "remove" and "Import" in norm(c.get("recv_ty", ""))]
+    removes = [c for c in f.walk() if c.get("k") == "MethodCall" and c["method"] == "remove" and "Import" in norm(c.get("recv_ty", ""))
+               and c["args"]]
     R.floor("R13-e", "existing-entry removal", len(removes), 1)
     for c in removes:
-        a = pv.atoms(c["args"][0])
+        a = pv.deep_atoms(c["args"][0])
         scans = any(x[0] == "call" and (x[1].endswith("::position") or x[1].endswith("::find") or x[1].endswith("::rposition")
-                                        or x[1].endswith("Iterator::any") or "hash::map::HashMap" in x[1]) for x in a)
-        iterates = any(x[0] == "call" and (x[1].endswith("slice::iter") or x[1].endswith("::iter") or x[1].endswith("into_iter")) for x in a)
-        trunc = any(x[0] == "call" and x[1].split("::")[-1] in ("last", "first", "checked_sub", "len", "take", "skip", "nth", "rev") for x in a)
-        R.check("R13-e", "merge-scans-all", scans and iterates and not trunc,
-                "an earlier import of the same path is searched among all collected imports",
-                "the index of the import entry to merge with is not found by scanning all collected imports (position/find over "
-                "imports.iter()): non-adjacent import lines for one file stay separate and the later one is dropped as `visited`", loc=f.loc())
+                                        or x[1].endswith("Iterator::any") or x[1].endswith("::find_map") or "hash::map::HashMap" in x[1]
+                                        or "btree::map::BTreeMap" in x[1]) for x in a)
+        iterates = any(x[0] == "call" and (x[1].endswith("slice::iter") or x[1].endswith("::iter") or x[1].endswith("into_iter")
+                                           or x[1].endswith("::iter_mut") or "::map::" in x[1]) for x in a)
+        trunc = sorted(x[1].split("::")[-1] for x in a if x[0] == "call" and x[1].split("::")[-1] in
+                       ("last", "first", "checked_sub", "len", "take", "skip", "nth", "rev", "last_mut", "first_mut", "saturating_sub"))
+        if scans and iterates and not trunc:
+            R.holds("R13-e", "merge-scans-all", "an earlier import of the same path is searched among all collected imports", loc=f0.loc())
+        elif trunc and not scans:
+            R.violated("R13-e", "merge-scans-all",
+                       "the index of the import entry to merge with is not found by scanning all collected imports (position/find over "
+                       "imports.iter()) but computed with %s: non-adjacent import lines for one file stay separate and the later one is dropped as `visited`"
+                       % trunc, loc=f0.loc())
+        else:
+            R.undecided("R13-e", "merge-scans-all", "how the entry to merge with is located is not recognised (scan=%s iterate=%s positional=%s)"
+                        % (scans, iterates, trunc), loc=f0.loc())
         ok = has_field(a, "nitrogql_ast::value::StringValue", "value")
-        R.check("R13-e", "merge-by-path", ok, "entries are matched by import path", "entries are not matched by path", loc=f.loc())
+        R.check("R13-e", "merge-by-path", ok, "entries are matched by import path", "entries are not matched by path", loc=f0.loc())
         # ... compared as written, or through a transformation that cannot identify two different files
         BENIGN = ("deref", "as_str", "as_ref", "borrow", "eq", "ne", "clone", "to_owned", "to_string", "as_bytes", "iter", "position", "find", "any",
-                  "rposition", "into_iter", "next", "Some", "len", "new", "with_capacity", "push")
+                  "rposition", "into_iter", "next", "Some", "len", "new", "with_capacity", "push", "iter_mut", "enumerate", "map", "find_map", "copied", "cloned")
         LOSSY_KEY = ("trim_start_matches", "trim_end_matches", "trim_matches", "trim_left_matches", "trim_right_matches", "to_lowercase",
                      "to_uppercase", "to_ascii_lowercase", "to_ascii_uppercase", "replace", "replacen", "file_name", "file_stem", "split",
-                     "rsplit", "split_once", "rsplit_once", "trim", "trim_start", "trim_end", "get", "chars")
+                     "rsplit", "split_once", "rsplit_once", "trim", "trim_start", "trim_end", "get", "chars", "strip_prefix", "strip_suffix")
         calls = set()
         todo, seen = [c["args"][0]], set()
         while todo:
@@ -243,7 +780,7 @@ def r13e(P, R):
                 if y.get("k") in ("Call", "MethodCall"):
                     cn = call_name(y) or ""
                     calls.add(cn)
-                    if cn in P.fns and cn not in seen and not P.fns[cn].derived:
+                    if "inl" not in y and cn in P.fns and cn not in seen and not P.fns[cn].derived:
                         seen.add(cn)
                         todo.append(P.fns[cn].body)
                 if y.get("k") == "Path" and "local" in y and y["local"] not in seen:
@@ -254,55 +791,85 @@ def r13e(P, R):
                        and not cn.endswith(("Vec<T, A>::remove", "PartialEq::eq")))
         if lossy:
             R.violated("R13-e", "merge-key-injective", "import lines are merged under a key computed with %s: two different paths (e.g. `./f` and "
-                       "`../f`) can get the same key, and the names of one line are then looked up in the other line's file" % lossy, loc=f.loc())
+                       "`../f`) can get the same key, and the names of one line are then looked up in the other line's file" % lossy, loc=f0.loc())
         elif other:
-            R.undecided("R13-e", "merge-key-injective", "import lines are merged under a transformed path (%s); injectivity not decided" % other, loc=f.loc())
+            R.undecided("R13-e", "merge-key-injective", "import lines are merged under a transformed path (%s); injectivity not decided" % other, loc=f0.loc())
         else:
             R.holds("R13-e", "merge-key-injective", "import lines are merged by the literal path string")
-    # exclusivity table
-    rows = {}
+    # exclusivity table: the transition (accumulated targets, next target) -> error | new accumulated targets, read off the
+    # match over the pair whatever carries the loop (try_fold closure, `for` with early return, helper function).  The variants
+    # are identified by shape (unit = wildcard, payload = names), the diagnostics by name while the name exists.
+    acc_adt = sem_adt(P, "ImportTargets")
+    nxt_adts = [a for p, a in P.adts.items() if p.split("::")[-1] == "ImportTarget" and a.kind == "Enum"]
+    if len(nxt_adts) != 1:
+        raise AnchorMissing("enum ImportTarget: %d candidates" % len(nxt_adts))
+    aW, aS = enum_roles(acc_adt)
+    tW, tN = enum_roles(nxt_adts[0])
+    diag = {v for p, a in P.adts.items() if p.startswith(SEM + "operation_extension_resolver") and a.kind == "Enum" for v in a.variant_names()}
+    tables = []
     for m in f.walk():
-        if m.get("k") == "Match" and m.get("src") == "Normal" and m["scrut"].get("k") == "Tup":
-            for arm in m["arms"]:
-                if arm["pat"].get("k") != "Tuple":
-                    continue
-                ps = arm["pat"]["ps"]
-                key = tuple(norm(p.get("def") or p.get("ctor_of") or "?").split("::")[-1] for p in ps)
-                oks = [norm(x.get("def", "")).split("::")[-1] for x in subnodes(arm["body"]) if x.get("k") == "Path" and x.get("dk", "").startswith("Ctor")]
-                errs = [norm(x.get("variant", "")).split("::")[-1] for x in subnodes(arm["body"]) if x.get("k") == "Struct" and "rest" not in x and "variant" in x]
-                rows[key] = (set(oks), set(errs))
-    expect = {
-        ("Wildcard", "Wildcard"): "WildcardOnlyOnce",
-        ("Wildcard", "Name"): "WildcardCannotBeCombinedWithSpecific",
-    }
-    R.floor("R13-e", "exclusivity table rows", len(rows), 4)
-    for key, err in expect.items():
-        got = rows.get(key)
-        R.check("R13-e", "table:%s+%s" % key, got is not None and err in got[1] and "Ok" not in got[0],
-                "%s then %s is rejected (%s)" % (key[0], key[1], err), "row %s of the wildcard/specific table is %s" % (key, got), loc=f.loc())
-    got = rows.get(("Specific", "Name"))
-    R.check("R13-e", "table:Specific+Name", got is not None and "Ok" in got[0] and not got[1], "names accumulate", "row (Specific, Name) is %s" % (got,), loc=f.loc())
-    got = rows.get(("Specific", "Wildcard"))
-    R.check("R13-e", "table:Specific+Wildcard", got is not None and "Ok" in got[0] and "WildcardCannotBeCombinedWithSpecific" in got[1],
-            "wildcard after names is rejected, wildcard first is accepted", "row (Specific, Wildcard) is %s" % (got,), loc=f.loc())
+        if m.get("k") != "Match" or m.get("src") != "Normal" or strip(m["scrut"]).get("k") != "Tup" or len(strip(m["scrut"])["es"]) != 2:
+            continue
+        tys = [peel_ty(e.get("t")).strip().split("<")[0] for e in strip(m["scrut"])["es"]]
+        if sorted(tys) == sorted([acc_adt.path, nxt_adts[0].path]):
+            tables.append((m, tys.index(acc_adt.path)))
+    R.floor("R13-e", "match over (accumulated targets, next target)", len(tables), 1)
+
+    def outcome(m, acc_first, acc, nxt):
+        arms = may_match(m, (acc, nxt) if acc_first else (nxt, acc))
+        if not arms:
+            return None
+        succ, errs = set(), set()
+        for arm in arms:
+            for x in subnodes(arm["body"]):
+                d = norm(x.get("def") or "") if x.get("k") == "Path" and str(x.get("dk", "")).startswith("Ctor") else ""
+                if d.rsplit("::", 1)[0] == acc_adt.path:
+                    succ.add("Wildcard" if d.split("::")[-1] == aW else "Specific")
+                if x.get("k") == "Struct" and "rest" not in x and "variant" in x:
+                    errs.add(norm(x["variant"]).split("::")[-1])
+        return succ, errs
+
+    def rejected(s, e, name):
+        # no new accumulated value, and the expected diagnostic (any diagnostic, if that name no longer exists)
+        return not s and (name in e or (bool(e) and name not in diag))
+    for m, ai in tables:
+        first = ai == 0
+        expect = [
+            ("Wildcard", "Wildcard", aW, tW, lambda s, e: rejected(s, e, "WildcardOnlyOnce"), "is rejected (WildcardOnlyOnce)"),
+            ("Wildcard", "Name", aW, tN, lambda s, e: rejected(s, e, "WildcardCannotBeCombinedWithSpecific"), "is rejected (WildcardCannotBeCombinedWithSpecific)"),
+            ("Specific", "Name", aS, tN, lambda s, e: s == {"Specific"} and not e, "accumulates the name"),
+            ("Specific", "Wildcard", aS, tW, lambda s, e: "Wildcard" in s and ("WildcardCannotBeCombinedWithSpecific" in e or
+                                                                             (bool(e) and "WildcardCannotBeCombinedWithSpecific" not in diag)),
+             "is accepted when no name was given before and rejected otherwise"),
+        ]
+        for a, b, av, bv, pred, what in expect:
+            got = outcome(m, first, av, bv)
+            key = "table:%s+%s" % (a, b)
+            if got is None:
+                R.undecided("R13-e", key, "no arm of the table matches (%s, %s)" % (a, b), loc=f0.loc())
+            else:
+                R.check("R13-e", key, pred(*got), "%s then %s %s" % (a, b, what),
+                        "row (%s, %s) of the wildcard/specific table yields targets %s / errors %s; expected: %s"
+                        % (a, b, sorted(got[0]), sorted(got[1]), what), loc=f0.loc())
     # definitions pass through in order, one push per variant
-    ms = matches_on(f, "ExecutableDefinitionExt")
-    for m in ms:
-        v, catch = arm_variants(m)
-        R.check("R13-e", "ext-variants", v == {"OperationDefinition", "FragmentDefinition", "Import"} and not catch,
-                "all definition kinds handled", "definition kinds handled: %s" % sorted(v), loc=f.loc())
+    extv = pattern_variants(f.body, "ExecutableDefinitionExt")
+    need = set(P.adt("operation_ext::ExecutableDefinitionExt").variant_names())
+    R.check("R13-e", "ext-variants", need <= extv, "all definition kinds handled",
+            "definition kinds never matched by %s: %s (such definitions are dropped)" % (f0.path, sorted(need - extv)), loc=f0.loc())
 
 
 RULES = [("R13-a", r13a), ("R13-b", r13b), ("R13-c", r13c), ("R13-d", r13d), ("R13-e", r13e)]
 EXPLANATION = (
-    "Structural necessary conditions of import resolution: (R13-a) the recursive call is dominated by visited.contains and "
-    "visited.insert (MIR dominators), the contains-branch skips, and the visited set only grows; (R13-b) contains/insert/resolve "
-    "are keyed by resolve_relative_path(importer, import.path) and recursion continues from the imported file; (R13-c) targets "
-    "are honoured on every path through the loop, wildcard/specific arms import only fragments by name and append them, dangling "
-    "file / missing name produce their positioned diagnostics; (R13-d) the root is marked visited, the result starts from the "
+    "Structural necessary conditions of import resolution, decided on the traversal located by role (the function receiving the "
+    "accumulated definitions and a mutable collection of paths) with its helpers inlined: (R13-a) the recursive call is dominated "
+    "by a membership test on and an insertion into the visited set (MIR dominators), is only reached for a file known to be fresh, "
+    "and the visited set is never shrunk; (R13-b) contains/insert/resolve are keyed by resolve_relative_path(importer, import.path) "
+    "and recursion continues from the imported file; (R13-c) targets are honoured on every path through the loop, each kind of "
+    "import appends, only fragments, specific ones by name, and dangling file / missing name produce their diagnostics under "
+    "conditions on the resolver's answer / the imported document; (R13-d) the root is marked visited, the result starts from the "
     "root's own definitions; (R13-e) import lines for one path are merged by scanning all collected imports, and the "
-    "wildcard/specific exclusivity table has the four expected rows. Not decided: result = reference closure for all graphs.")
-ASSUMPTIONS = ["std::collections::HashSet semantics", "nitrogql_utils::resolve_relative_path normalises paths (C20, not claimed)"]
+    "wildcard/specific transition table has the four expected rows. Not decided: result = reference closure for all graphs.")
+ASSUMPTIONS = ["std::collections::HashSet / BTreeSet semantics", "nitrogql_utils::resolve_relative_path normalises paths (C20, not claimed)"]
 
 
 def main(tier):
